@@ -88,7 +88,7 @@ def relabel_nodes(
 def relabel_nodes_of_trees(i: TreeNode, g: Grammar) -> TreeNode:
     """Recomputes all the nodes, depth and distance_to_term in the tree."""
 
-    relabel_nodes(i, g)
+    relabel_nodes(i, g, isinstance(i, list))
     return i
 
 
